@@ -766,6 +766,23 @@ def job_simulate(job):
     pyrandom.choices, pyrandom.choice, bern_mod.bernoulli = choices, choice, BernStub
     runs = []
     complete = True
+    if job.get("one_call"):
+        # spec -> code replay of several behaviours in ONE call of simulate (samples = number of behaviours): the
+        # scripted source is fed the concatenation of all behaviours' choices
+        try:
+            allscripts = job["scripts_sparse"]
+            flat = [c for sc in allscripts for c in sc]
+            cur["s"] = Scripted(flat, True)
+            result = Simulator(N).simulate(program, [], len(allscripts))
+            for states in result.samples:
+                runs.append({"states": [{str(k): float_frac(v) for k, v in st.items()} for st in states]})
+        except Exception as ex:
+            runs.append({"exc": type(ex).__name__, "msg": str(ex)[:200]})
+        finally:
+            pyrandom.choices, pyrandom.choice, bern_mod.bernoulli = saved
+        res["runs"] = runs
+        res["complete"] = False
+        return res
     try:
         sparse = "scripts_sparse" in job
         script = forced = job.get("scripts", job.get("scripts_sparse"))   # spec -> code replay: explicit scripts
